@@ -80,8 +80,12 @@ def error_injection(args):
     us = layout.units(text)
     if any(k == "pragma" for k, _ in us) or not us:
         return None
+    if py_parse_obj(text, "f.c")[0] != "OK":      # only accepted programs: the injected character is the one error
+        return None
     j = rng.randrange(len(us) + 1)
-    bad = rng.choice(["@", "`", "$$"[:1] + "@"])[:1] if False else rng.choice(["@", "`"])
+    # characters that are not C tokens; the control characters are line boundaries for str.splitlines()
+    # but not for C (only '\n' ends a line): lines after them must still be counted as C counts them
+    bad = rng.choice(["@", "`", "@", "`", "\x0c", "\x0b", "\x1c", "\x1d", "\x1e", "\x85", "\u2028", "\u2029"])
     us2 = us[:j] + [("tok", bad)] + us[j:]
     rec = []
     v = layout.render(us2, rng.choice(["indent", "line", "markers"]), rng, record=rec)
